@@ -192,8 +192,9 @@ def check_radius(ctx):
     fi = ctx.fn(CSR)
     it = ctx.entry(CSR)
     ctx.floor('R4', 3)
+    kind_errors(ctx, 'R4', it, lambda f: f.qualname == CSR, strict=True)
     dists = uniq_events(it, {'pbc_distance'}, lambda f: f.qualname == CSR)
-    if not dists:
+    if not dists and not any(o.rule.endswith('R4') and o.status == 'violated' for o in ctx.obs):
         ctx.ob('R4', fi, 'pair distances', None, 'pair distances do not come from a periodic distance call')
     for e in dists:
         a, b = e['a'], e['b']
